@@ -338,6 +338,7 @@ var vfOIDCClients = []vfOIDCClient{
 	{"clientA", "secretA-0123456789", false, []string{"a.example.com"}},
 	{"clientB", "", true, []string{"b.example.com"}}, // secret-less: PKCE
 	{"clientC", "secretC-9876543210", false, []string{"c.example.org"}},
+	{"clientD", "", false, []string{"d.example.net"}}, // a second secret-less client
 }
 
 // vfNop logger: takes no lock, so logging adds neither nondeterminism nor
